@@ -315,7 +315,10 @@ pub const PROFILES: &[&str] = &[
 const MULTI: &[char] = &['é', 'ж', 'λ', 'ß', '日', '本', '€', '佐', '😀', '𑿁', 'Ю', '字'];
 const BOUNDARY: &[char] = &[
     '\u{80}', '\u{7ff}', '\u{800}', '\u{ffff}', '\u{10000}', '\u{10ffff}', '\u{7e}', '\u{d7ff}', '\u{e000}', '\u{fffd}',
+    // characters that Unicode-aware helpers treat specially although they are ordinary text here
+    '\u{a0}', '\u{3000}', '\u{2003}', '\u{2028}', '\u{feff}', '\u{85}', '\u{9b}',
 ];
+const UNICODE_BLANKS: &[char] = &['\u{a0}', '\u{3000}', '\u{2003}', '\u{2028}', '\u{85}'];
 const LETTERS: &[u8] = b"abcdxyz019_.[]~;ADO@";
 const C0_IGNORED: &[u8] = &[0x00, 0x01, 0x02, 0x03, 0x04, 0x07, 0x0b, 0x0c, 0x0e, 0x11, 0x13, 0x18, 0x1a, 0x1c, 0x1f];
 const OUT_TEXTS: &[&str] = &[
@@ -706,6 +709,10 @@ impl<'a> Gen<'a> {
                     for _ in 0..self.rng.range(1, 2) {
                         self.unit(vec![b' ']);
                     }
+                } else if self.rng.chance(1, 12) {
+                    // a non-ASCII "blank" in front of the word is an ordinary character of the word
+                    let c = *self.rng.pick(UNICODE_BLANKS);
+                    self.unit(enc(c));
                 }
                 let pre: String = cs[..k].iter().collect();
                 self.type_str(&pre);
